@@ -1,13 +1,16 @@
 package main
 
-const c08Rule = "fault enumeration: seeded documents (1..3 conjunctions over a default, a pattern and a range field, incl. all-negative and empty conjunctions) x every expression position replaced by an unparseable value of that container's kind (default: bool / map / nested list / nil / lists with one unparseable element in last, first or middle position; pattern: integer / list with a non-string; range: non-numeric string, ill-typed or reversed between pair, malformed description) x {include, exclude} x {skip, error, panic(recovered)} x {k-groups, compact}, followed by queries that would match the bad conjunction had it left a trace (empty assignment, an assignment hitting its includes and avoiding its excludes) and by ordinary queries; plus documents rejected outright (no conjunction, 256 conjunctions, id out of range). Posting-list contents are compared through the hook. Non-trivial = the faulty document has another conjunction or a neighbour that some query matches; distinct = distinct input"
+const c08Rule = "fault enumeration: seeded documents (1..3 conjunctions over a default, a pattern and a range field, incl. all-negative and empty conjunctions) x every expression position replaced by an unparseable value of that container's kind (default: bool / map / nested list / nil / lists with one unparseable element in last, first or middle position; pattern: integer / list with a non-string; range: non-numeric string, typed and untyped lists with one non-numeric element, ill-typed or reversed between pair, malformed description) x {include, exclude} x {skip, error, panic(recovered)} x {k-groups, compact}, followed by queries that would match the bad conjunction had it left a trace (empty assignment, an assignment hitting its includes and avoiding its excludes) and by ordinary queries; plus documents rejected outright (no conjunction, 256 conjunctions, id out of range). Posting-list contents are compared through the hook. Non-trivial = the faulty document has another conjunction or a neighbour that some query matches; distinct = distinct input"
 
 func badValues(cont string) []TV {
 	switch cont {
 	case "ac_matcher":
-		return []TV{tvInt("int", 5), tvList(tvStr("a"), tvInt("int", 1)), tvNil(), tvList(tvInt("int", 1), tvStr("red")), tvList(tvStr("red"), tvBool(true), tvStr("blue"))}
+		return []TV{tvInt("int", 5), tvSlice("[]int", tvInt("int", 5)), tvList(tvStr("a"), tvInt("int", 1)), tvNil(), tvList(tvInt("int", 1), tvStr("red")), tvList(tvStr("red"), tvBool(true), tvStr("blue"))}
 	case "ext_range":
-		return []TV{tvStr("x"), tvBool(true), tvList(tvStr("a")), {T: "other:map"}, tvList(tvStr("x"), tvInt("int", 15)), tvList(tvInt("int", 15), tvBool(true), tvInt("int", 16)), tvList(tvInt("int", 15), tvStr("x"))}
+		return []TV{tvStr("x"), tvBool(true), tvList(tvStr("a")), {T: "other:map"}, tvList(tvStr("x"), tvInt("int", 15)), tvList(tvInt("int", 15), tvBool(true), tvInt("int", 16)), tvList(tvInt("int", 15), tvStr("x")),
+			// typed lists of number texts with one element that is no number (middle, first, last)
+			tvSlice("[]string", tvStr("15"), tvStr("x"), tvStr("16")), tvSlice("[]string", tvStr("x"), tvStr("15")), tvSlice("[]json.Number", tvJSON("15"), tvJSON("1x")),
+			tvSlice("[]string", tvStr("15"), tvStr("")), tvSlice("[]bool", tvBool(true))}
 	}
 	// lists with the unparseable element last, first and in the middle: one bad element spoils the whole expression
 	return []TV{tvBool(true), {T: "other:map"}, tvList(tvList(tvInt("int", 1))), tvNil(), tvList(tvInt("int", 1), tvBool(false)),
